@@ -1,1 +1,2 @@
 import ThriftVerif.Props.C19
+#print axioms Props.C19.facts_match
